@@ -131,7 +131,7 @@ def child(args):
         "evaluations": stats["evaluations"], "routes": stats["routes"], "regions": stats["regions"],
         "samples": stats["samples"], "truncated": stats["truncated"],
         "harness_errors": stats.get("harness_errors", []) + ([{"traceback": err[-3000:]}] if err else []),
-        "clauses": ctx.clauses, "notes": ctx.notes, "route_evals": ctx.route_evals,
+        "clauses": ctx.clauses, "notes": ctx.notes, "route_evals": ctx.route_evals, "route_worst": ctx.route_worst,
         "viols": [dict(v, key=list(k)) for k, v in stats["viols"].items()],
         "probe_calls": pr.counts(), "reach": reach,
         "extra": mod.extra_evidence() if hasattr(mod, "extra_evidence") else {},
@@ -231,6 +231,11 @@ def finish(mod, args, parts, digests, inconclusive, t0, nsh):
             c["n"] += n
             if ratio > c["worst_ratio"] or ratio != ratio:
                 c.update(worst_ratio=ratio, worst_residual=resid, tol=tol)
+    route_worst = {}
+    for p in parts:
+        for k, v in p.get("route_worst", {}).items():
+            if not (v <= route_worst.get(k, 0.0)):
+                route_worst[k] = v
     reach = {}
     for p in parts:
         for fn, (hit, tot, missed) in p["reach"].items():
@@ -339,6 +344,7 @@ def finish(mod, args, parts, digests, inconclusive, t0, nsh):
             "oracle_clause_evaluations": int(sum(c["n"] for c in clauses.values())),
             "per_route_cases": dict(sorted(routes.items())), "per_route_clause_evaluations": dict(sorted(route_evals.items())),
             "per_region_cases": dict(sorted(regions.items())),
+            "per_route_worst_residual_over_tolerance": {k: (round(v, 6) if v == v and v != float("inf") else repr(v)) for k, v in sorted(route_worst.items())},
             "clauses": {k: clauses[k] for k in sorted(clauses)},
             "probe_calls": dict(sorted(probe_calls.items())), "code_reach": reach,
             "notes": dict(sorted(notes.items())), "known_findings_hit": known_hits,
